@@ -119,8 +119,8 @@ func Gen(t *rapid.T) Case {
 	c.Cfg.MaxAge = rapid.SampledFrom([]int{-1, 0, 60, 3600}).Draw(t, "maxAge")
 	c.Cfg.Cred = rapid.Bool().Draw(t, "cred")
 	for _, o := range c.Cfg.Origins {
-		if o == "*" {
-			c.Cfg.Cred = false // the rejected combination is not a configuration
+		if o == "*" && rapid.IntRange(0, 3).Draw(t, "starWithCred") > 0 {
+			c.Cfg.Cred = false // '*' with credentials is refused at construction: kept now and then, to see that it is
 		}
 	}
 	c.Cfg.Trace = rapid.IntRange(0, 4).Draw(t, "trace") == 0
@@ -287,6 +287,16 @@ func sharedOpts(c Config, sb *Sibling) (subject, sibling mux.Option) {
 	}
 	// the sibling never combines '*' with credentials (a rejected configuration)
 	return mux.WithCORS(o1, h1, e1, c.MaxAge, c.Cred), mux.WithCORS(o2, h2, e2, c.MaxAge+1, c.Cred && !contains(o2, "*"))
+}
+
+// Refused reports whether the configuration is the documented refused combination: '*' among the
+// origins together with credentials.
+func (c Config) Refused() bool { return c.Cred && contains(c.Origins, "*") }
+
+// TryBuild is Build under recover: constructing a router with a refused configuration panics.
+func TryBuild(c Case) (w *World, v any, panicked bool) {
+	v, panicked = rig.Try(func() { w = Build(c) })
+	return
 }
 
 func Build(c Case) *World {
